@@ -139,6 +139,7 @@ const (
 	OpDyEq
 	OpDyDiv // floor division by positive constant (name)
 	OpDyMod // floor modulus by positive constant (name)
+	OpDyLin // linear normal form, see dylin.go
 )
 
 type Term struct {
@@ -152,6 +153,7 @@ type Term struct {
 	scale int    // Dy: value = m * 2^-scale
 	bnd   float64 // Dy: upper bound on |m| (exact integers < 2^53)
 	key   string
+	coefs []string // OpDyLin coefficients (decimal)
 }
 
 func (t *Term) IsConst() bool { return t.op == OpConst }
@@ -180,6 +182,9 @@ func NewTermStore() *TermStore { return &TermStore{tab: map[string]*Term{}} }
 func (ts *TermStore) intern(t *Term) *Term {
 	var sb strings.Builder
 	fmt.Fprintf(&sb, "%d|%d|%x|%s|%d|%d", t.op, t.sort, t.cu, t.name, t.p1, t.scale)
+	for _, c := range t.coefs {
+		sb.WriteString(";" + c)
+	}
 	for _, a := range t.args {
 		fmt.Fprintf(&sb, ",%d", a.id)
 	}
@@ -843,19 +848,9 @@ func (ts *TermStore) dyScaleTo(a *Term, scale int) *Term {
 
 // multiply integer part by k and add addScale to scale: value' = m*k * 2^-(scale+addScale)
 func (ts *TermStore) dyMulConst(a *Term, k *big.Int, addScale int) *Term {
-	kf, _ := new(big.Float).SetInt(new(big.Int).Abs(k)).Float64()
-	if a.op == OpConst {
-		m, _ := new(big.Int).SetString(a.name, 10)
-		m.Mul(m, k)
-		bf, _ := new(big.Float).SetInt(new(big.Int).Abs(m)).Float64()
-		return ts.intern(&Term{op: OpConst, sort: SDy, name: m.String(), scale: a.scale + addScale, bnd: bf})
-	}
-	if k.Cmp(big.NewInt(1)) == 0 {
-		if addScale == 0 {
-			return a
-		}
-	}
-	return ts.intern(&Term{op: OpDyScale, sort: SDy, args: []*Term{a}, name: k.String(), scale: a.scale + addScale, bnd: a.bnd * kf})
+	l := ts.linAt(a, a.scale).scaled(k)
+	kf := bigAbsF(k)
+	return ts.mkLin(l, a.scale+addScale, a.bnd*kf)
 }
 
 func (ts *TermStore) dyAlign(a, b *Term) (*Term, *Term) {
@@ -912,34 +907,13 @@ func (ts *TermStore) FAdd(a, b *Term) *Term {
 		return ts.F64C(a.F64() + b.F64())
 	}
 	if isDyPair(a, b) {
-		a, b = ts.toDy(a), ts.toDy(b)
-		a, b = ts.dyAlign(a, b)
-		bnd := a.bnd + b.bnd
-		if bnd >= dyLimit {
-			unsup("dyadic exactness bound exceeded in + (%g)", bnd)
-		}
-		if a.op == OpConst && b.op == OpConst {
-			m := new(big.Int).Add(dyConstBig(a), dyConstBig(b))
-			bf, _ := new(big.Float).SetInt(new(big.Int).Abs(m)).Float64()
-			return ts.intern(&Term{op: OpConst, sort: SDy, name: m.String(), scale: a.scale, bnd: bf})
-		}
-		if a.op == OpConst && a.name == "0" {
-			return b
-		}
-		if b.op == OpConst && b.name == "0" {
-			return a
-		}
-		return ts.intern(&Term{op: OpDyAdd, sort: SDy, args: []*Term{a, b}, scale: a.scale, bnd: bnd})
+		return ts.dyAddLin(ts.toDy(a), ts.toDy(b), false)
 	}
 	return ts.intern(&Term{op: OpFAdd, sort: SF64, args: []*Term{a, b}})
 }
 func (ts *TermStore) FNeg(a *Term) *Term {
 	if a.sort == SDy {
-		if a.op == OpConst {
-			m := new(big.Int).Neg(dyConstBig(a))
-			return ts.intern(&Term{op: OpConst, sort: SDy, name: m.String(), scale: a.scale, bnd: a.bnd})
-		}
-		return ts.intern(&Term{op: OpDyNeg, sort: SDy, args: []*Term{a}, scale: a.scale, bnd: a.bnd})
+		return ts.dyMulConst(a, big.NewInt(-1), 0)
 	}
 	if a.IsConst() {
 		return ts.F64C(-a.F64())
@@ -951,7 +925,7 @@ func (ts *TermStore) FSub(a, b *Term) *Term {
 		return ts.F64C(a.F64() - b.F64())
 	}
 	if isDyPair(a, b) {
-		return ts.FAdd(a, ts.FNeg(ts.toDy(b)))
+		return ts.dyAddLin(ts.toDy(a), ts.toDy(b), true)
 	}
 	return ts.intern(&Term{op: OpFSub, sort: SF64, args: []*Term{a, b}})
 }
@@ -1056,9 +1030,13 @@ func (ts *TermStore) fcmp(op Op, a, b *Term) *Term {
 			}
 		}
 		a, b = ts.toDy(a), ts.toDy(b)
-		a, b = ts.dyAlign(a, b)
-		if a.op == OpConst && b.op == OpConst {
-			c := dyConstBig(a).Cmp(dyConstBig(b))
+		g := a.scale
+		if b.scale > g {
+			g = b.scale
+		}
+		d := linAdd(ts.linAt(a, g), ts.linAt(b, g).scaled(big.NewInt(-1))) // a - b
+		if len(d.atoms) == 0 {
+			c := d.k.Sign()
 			switch op {
 			case OpFLt:
 				return ts.BoolC(c < 0)
@@ -1068,11 +1046,28 @@ func (ts *TermStore) fcmp(op Op, a, b *Term) *Term {
 				return ts.BoolC(c == 0)
 			}
 		}
-		if a == b {
-			return ts.BoolC(op != OpFLt)
+		// canonical sign for equalities; divide out the common factor
+		gcd := new(big.Int).Abs(d.k)
+		for _, c := range d.coefs {
+			gcd.GCD(nil, nil, gcd, new(big.Int).Abs(c))
 		}
+		if gcd.Sign() != 0 && gcd.Cmp(big.NewInt(1)) != 0 {
+			d.k = new(big.Int).Quo(d.k, gcd)
+			nc := make([]*big.Int, len(d.coefs))
+			for i, c := range d.coefs {
+				nc[i] = new(big.Int).Quo(c, gcd)
+			}
+			d.coefs = nc
+		}
+		if op == OpFEq && d.coefs[0].Sign() < 0 {
+			d = d.scaled(big.NewInt(-1))
+		}
+		// move the constant to the right-hand side:  Σ c_i a_i  op  -k
+		rhs := ts.intern(&Term{op: OpConst, sort: SDy, name: new(big.Int).Neg(d.k).String(), scale: g, bnd: bigAbsF(d.k)})
+		d.k = big.NewInt(0)
+		lhs := ts.mkLin(d, g, math.Inf(1))
 		dop := map[Op]Op{OpFLt: OpDyLt, OpFLe: OpDyLe, OpFEq: OpDyEq}[op]
-		return ts.intern(&Term{op: dop, sort: SBool, args: []*Term{a, b}})
+		return ts.intern(&Term{op: dop, sort: SBool, args: []*Term{lhs, rhs}})
 	}
 	return ts.intern(&Term{op: op, sort: SBool, args: []*Term{a, b}})
 }
@@ -1343,6 +1338,14 @@ func (e *evalCtx) eval1(t *Term) evalVal {
 	case OpDyScale:
 		k, _ := new(big.Int).SetString(t.name, 10)
 		return evalVal{bi: new(big.Int).Mul(a(0).bi, k)}
+	case OpDyLin:
+		k, _ := new(big.Int).SetString(t.name, 10)
+		r := new(big.Int).Set(k)
+		for i := range t.args {
+			c, _ := new(big.Int).SetString(t.coefs[i], 10)
+			r.Add(r, c.Mul(c, a(i).bi))
+		}
+		return evalVal{bi: r}
 	case OpDyDiv:
 		k, _ := new(big.Int).SetString(t.name, 10)
 		return evalVal{bi: new(big.Int).Div(a(0).bi, k)}
@@ -1644,6 +1647,23 @@ func (em *Emitter) emit1(t *Term) {
 		body = un("-")
 	case OpDyScale:
 		body = fmt.Sprintf("(* %s %s)", intLit(t.name), r(0))
+	case OpDyLin:
+		var parts []string
+		if t.name != "0" {
+			parts = append(parts, intLit(t.name))
+		}
+		for i := range t.args {
+			if t.coefs[i] == "1" {
+				parts = append(parts, r(i))
+			} else {
+				parts = append(parts, fmt.Sprintf("(* %s %s)", intLit(t.coefs[i]), r(i)))
+			}
+		}
+		if len(parts) == 1 {
+			body = fmt.Sprintf("(+ 0 %s)", parts[0])
+		} else {
+			body = "(+ " + strings.Join(parts, " ") + ")"
+		}
 	case OpDyDiv:
 		body = fmt.Sprintf("(div %s %s)", r(0), t.name)
 	case OpDyMod:
